@@ -1,7 +1,7 @@
 """C11 - a message's named AVP view, AVP list and length stay coherent under mutation."""
 import ast
 
-from ..astutil import make_cfg, call_name, fn_calls, must_pass, node_calls, walk_no_nested, header_exprs, witness_avoiding
+from ..astutil import strip_doc, make_cfg, call_name, fn_calls, must_pass, node_calls, walk_no_nested, header_exprs, witness_avoiding
 from ..minieval import ev, UNK
 from .c01 import run_paths, _rewrite_store
 
@@ -296,9 +296,14 @@ def check(ctx):
                    "renaming moves the same object from the old name to the new one",
                    "update_key does not move the object from the old name to the new one in one step (`self.__dict__[new] = "
                    "self.__dict__.pop(old)`): a name is left for an unlisted AVP or two names refer to one listed AVP", key="move")
-        guards = {ast.unparse(x.test): [ast.unparse(b) for b in x.body] for x in walk_no_nested(uk) if isinstance(x, ast.If)}
-        okg = any(t == f"not self.has_avp({old_k})" and any("raise" in b for b in bs) for t, bs in guards.items()) and \
-            any(t == f"self.has_avp({new_k})" and any("raise" in b for b in bs) for t, bs in guards.items())
+        from ..astutil import guards as _guards
+        g_ = _guards(uk)
+        has = lambda conds, k, tv: any(ast.unparse(t) == f"self.has_avp({k})" and v is tv for t, v in conds)
+        writes_ = moves or [x for x in walk_no_nested(uk) if isinstance(x, (ast.Assign, ast.Expr)) and new_k in ast.unparse(x)
+                            and ("__dict__" in ast.unparse(x) or "setattr" in ast.unparse(x))]
+        raises_ = [x for x in walk_no_nested(uk) if isinstance(x, ast.Raise)]
+        okg = bool(writes_) and all(has(g_.get(id(x), []), old_k, True) and has(g_.get(id(x), []), new_k, False) for x in writes_) and \
+            any(has(g_.get(id(x), []), old_k, False) for x in raises_) and any(has(g_.get(id(x), []), new_k, True) for x in raises_)
         ctx.decide(okg, "R-DOM/rename", f"{ci.qual}.update_key", ci.where(uk),
                    "renaming requires the old name to exist and the new one to be free",
                    "update_key no longer rejects a missing old name / an already used new name: renaming onto an existing name drops "
@@ -324,8 +329,24 @@ def check(ctx):
             ctx.decide(oke, "R-MUSTPASS/replace-list", f"{ci.qual}.extend", ci.where(ex), "extend appends each element in order",
                        "extend does not append each given element exactly once in order", key="extend")
         ha = ctx.need(ci.methods.get("has_avp"), f"{ci.name}.has_avp")
-        src = ast.unparse(ha)
-        ctx.decide("in self.__dict__" in src and "if not self.avps" in src, "R-TABLE/membership", f"{ci.qual}.has_avp", ci.where(ha),
+        from .. import sym as _sym
+        okh, n_true = True, 0
+        for p_ in _sym.Interp().run(strip_doc(ha.body)):
+            if p_.term != "return":
+                continue
+            in_map = any(isinstance(c, tuple) and c[0] == "cmp" and c[1] == "In" and _sym.show(c[3]) == "self.__dict__" and tv
+                         for c, tv in p_.conds)
+            nonempty = [tv for c, tv in p_.conds if _sym.show(c) in ("self.avps", "self._avps")]
+            if p_.value is True:
+                n_true += 1
+                okh = okh and in_map and nonempty == [True]
+            elif p_.value is False:
+                pass
+            else:
+                okh = False
+            if nonempty == [False] and p_.value is not False:
+                okh = False
+        ctx.decide(okh and n_true > 0, "R-TABLE/membership", f"{ci.qual}.has_avp", ci.where(ha),
                    "membership consults the name map and an empty list means no member",
                    "has_avp no longer answers from the name map (and False for an empty list)", key="has_avp", nontrivial=False)
     gi = ctx.need(msg.methods.get("__getitem__"), "DiameterMessage.__getitem__")
